@@ -200,6 +200,19 @@ int main(int argc, char **argv)
 		}
 	}
 
+	/* produce=1: like a compiler, write the file named after -o (what it holds
+	 * is the run's marker id and exit code: enough to tell a fresh one from a stale one) */
+	if (script_get(script, "produce", val, sizeof val) && atoi(val)) {
+		for (int i = 1; i + 1 < argc; i++) {
+			if (!strcmp(argv[i], "-o")) {
+				int ofd = open(argv[i + 1], O_WRONLY | O_CREAT | O_TRUNC, 0755);
+				if (ofd >= 0) {
+					dprintf(ofd, "produced by %s\n", id);
+					close(ofd);
+				}
+			}
+		}
+	}
 	if (script_get(script, "out", val, sizeof val))
 		emit_hex(1, val);
 	if (script_get(script, "err", val, sizeof val))
